@@ -7,7 +7,8 @@ package c09
 //   impl line : <status> gas=<gas used by the root frame (traced run at the same limit)> markers=<surviving SSTORE markers
 //               read from contract storage> kept=<precompile calls whose frame and all enclosing frames returned
 //               normally> frames=<CALL-family frames of generated contracts that returned normally together with all
-//               their enclosing frames (journal level: what the StateDB kept of each frame)> logs=<number of precompile logs in the receipt> ref=<same|diff>
+//               their enclosing frames (journal level: what the StateDB kept of each frame)> logs=<number of precompile logs in the receipt>:<their
+//               origin in receipt order, s = staking precompile, c = crosschain precompile (round 4)> ref=<same|diff>
 //               where ref compares every Cosmos module store (and the ERC-20 token storage) after the real run with a
 //               REFERENCE run (ample gas) of the program pruned to exactly the kept frames — "surviving effects = those
 //               of calls all of whose enclosing frames returned normally", checked byte for byte on bank, staking,
@@ -299,6 +300,7 @@ type runObs struct {
 	dump    map[string]string
 	logs    string
 	nPreLog int
+	preSeq  string // origin of every precompile log of the receipt, in order: s = staking, c = crosschain
 	tr      *evmx.Tracer
 	gasUsed uint64
 }
@@ -483,6 +485,12 @@ func (e *env) runWith(pctx sdk.Context, p *program, gasLimit uint64, traced bool
 			sb.WriteString(l.Address + ":" + strings.Join(l.Topics, ",") + ":" + common.Bytes2Hex(l.Data) + ";")
 			if a := common.HexToAddress(l.Address); a == e.staking || a == e.cross {
 				o.nPreLog++
+				// round 4: which precompile emitted the surviving log, in receipt order
+				if a == e.staking {
+					o.preSeq += "s"
+				} else {
+					o.preSeq += "c"
+				}
 			}
 		}
 		o.logs = sb.String()
@@ -987,7 +995,7 @@ func TestC09(t *testing.T) {
 			if len(trc.tr.Frames) > 0 {
 				rootUsed = trc.tr.Frames[0].GasUsed
 			}
-			obs = fmt.Sprintf("%s gas=%d markers=%s kept=%s frames=%s logs=%d ref=%s", real.status, rootUsed, ints(real.markers), ints(trc.kept), ints(trc.frames), real.nPreLog, strings.SplitN(refs, ":", 2)[0])
+			obs = fmt.Sprintf("%s gas=%d markers=%s kept=%s frames=%s logs=%d:%s ref=%s", real.status, rootUsed, ints(real.markers), ints(trc.kept), ints(trc.frames), real.nPreLog, real.preSeq, strings.SplitN(refs, ":", 2)[0])
 			out.Count(fmt.Sprintf("kept-call-frames:%d", len(trc.frames)))
 			out.Emit(fmt.Sprintf("%s %d %d %s", opw, g, intrinsic, text), obs)
 			if p.direct {
